@@ -430,6 +430,29 @@ impl TerminalRenderer {
     }
 }
 
+/// Verification hooks (read-only): observable state of the renderer
+#[cfg(feature = "verif-hooks")]
+impl TerminalRenderer {
+    /// `(back buffer, marks (0 - empty, 1 - ignored, 2 - damaged), glyph cache)`
+    pub fn verif_state(&self) -> (SurfaceOwned<Cell>, Vec<u8>, Vec<(Cell, Image)>) {
+        let marks = self
+            .marks
+            .iter()
+            .map(|mark| match mark {
+                CellMark::Empty => 0,
+                CellMark::Ignored => 1,
+                CellMark::Damaged => 2,
+            })
+            .collect();
+        let glyphs = self
+            .glyph_cache
+            .iter()
+            .map(|(cell, image)| (cell.clone(), image.clone()))
+            .collect();
+        (self.back.clone(), marks, glyphs)
+    }
+}
+
 pub trait CellWrite {
     /// Get current face
     fn face(&self) -> Face;
